@@ -21,7 +21,8 @@ structure DState where
   wl : Workload := { rootNs := "istio-system".toList, ns := "foo".toList, labels := [] }
   policies : List Policy := []
   opts : BuildOpts := { bundle := [], forTCP := false, useAuth := true }
-  filters : List Filter := []
+  filters : List GFilter := []
+  custom : CustomOpts := { providers := [], multi := false }
 deriving Inhabited
 
 def S (s : Str) : String := enc (String.ofList s)
@@ -124,7 +125,12 @@ def showRBAC : Option RBAC → String
 def showFilter (f : Filter) : String :=
   s!"(filter {S f.name} rules={showRBAC f.rules} shadow={showRBAC f.shadow} sprefix={S f.shadowPrefix} stat={S f.statPrefix})"
 
-def showFilters (fs : List Filter) : String := "[" ++ " ".intercalate (fs.map showFilter) ++ "]"
+def showG : GFilter → String
+  | .rbac f => showFilter f
+  | .extAuthz name rbacName pre =>
+    s!"(extauthz {S name} enabled=(meta {S rbacName} path=istio_ext_authz_shadow_effective_policy_id (str (prefix {S pre}))))"
+
+def showFilters (fs : List GFilter) : String := "[" ++ " ".intercalate (fs.map showG) ++ "]"
 
 /-! ### requests -/
 
@@ -166,6 +172,7 @@ def step (s : DState) (toks : List String) : DState × String :=
   match toks with
   | "case" :: _ => ({}, "ok")
   | ["td", l] => ({ s with bundle := L l }, "ok")
+  | ["custom", provs, multi] => ({ s with custom := { providers := L provs, multi := tokBool multi } }, "ok")
   | ["wl", root, ns, labels] =>
     ({ s with wl := { rootNs := (dec root).toList, ns := (dec ns).toList, labels := labelsOf labels } }, "ok")
   | "pol" :: a :: ns :: name :: dry :: prov :: rest =>
@@ -185,11 +192,11 @@ def step (s : DState) (toks : List String) : DState × String :=
     ({ s with policies := modifyLast (fun p => { p with rules := modifyLast (fun r => { r with whens := r.whens ++ [c] }) p.rules }) s.policies }, "ok")
   | ["build", kind, auth] =>
     let o : BuildOpts := { bundle := s.bundle, forTCP := kind == "tcp", useAuth := tokBool auth }
-    let fs := compile s.wl o s.policies
+    let fs := compileAll s.wl o s.custom s.policies
     ({ s with opts := o, filters := fs }, showFilters fs)
   | "req" :: attrs =>
     let r := parseReq attrs
-    (s, s!"{decTok (evalFilters s.filters r)} {decTok (specDecision s.wl s.bundle s.policies r)}")
+    (s, s!"{decTok (evalGs s.filters r)} {decTok (specDecisionAll s.wl s.bundle s.custom s.policies r)}")
   | _ => (s, "bad-op")
 
 /-- Stream `hyps` (not compared with the implementation): for every `req` line, whether the
@@ -203,8 +210,8 @@ def stepHyps (s : DState) (toks : List String) : DState × String :=
     let sel := selectPolicies s.wl s.policies
     let mig := sel.all fun p => p.rules.all fun ru => migrationOKB s.opts p.ns ru
     let scope := sel.all fun p => p.rules.all fun ru => ruleInScope s.opts r p.ns ru
-    (s, s!"hyps={boolTok (hypsB s.opts sel r)} tr={boolTok (translatableB s.opts sel)} " ++
-        s!"compiled={decTok (evalFilters s.filters r)} spec={decTok (specDecision s.wl s.bundle s.policies r)} " ++
+    (s, s!"hyps={boolTok (hypsAllB s.opts sel r)} tr={boolTok (translatableB s.opts sel)} " ++
+        s!"compiled={decTok (evalGs s.filters r)} spec={decTok (specDecisionAll s.wl s.bundle s.custom s.policies r)} " ++
         s!"mig={boolTok mig} scope={boolTok scope} peer={boolTok r.peerOK} names={boolTok (entriesDistinctB s.opts sel)}")
   | "build" :: _ => let (s', _) := step s toks; (s', "built")
   | _ => step s toks
